@@ -25,7 +25,11 @@ def instances(tier):
 
 
 def variants(sc, b):
-    return [('base', sc), ('=bytewise', sessprop.reseg(sc, 1))] if False else [('base', sc)]
+    out = [('base', sc)]
+    if sessprop.sampled(sc, b, 5) and not any(w != 'ok' for w in sc['conns'][0].get('writes', [])):
+        # the same stream from an RFC 7692 peer (compressed data messages, Pings between their fragments)
+        out.append(('deflate', sessprop.via_deflate(sc, 'rand')))
+    return out
 
 
 def post(t, result):
